@@ -106,12 +106,17 @@ def rand_value(rng):
 
 def rand_dict(rng, maxn=4):
     names = rng.sample(RAND_NAMES, rng.randint(0, maxn))
+    if gen.EXTRA and rng.random() < 0.5:
+        # a literal new in the source, spelled as it is and as the raw name that normalises to it
+        w = rng.choice(gen.EXTRA)
+        names.insert(rng.randint(0, len(names)), rng.choice([w, w.replace("-", "_"), w + "_"]))
+        names = list(dict.fromkeys(names))
     return [(n, rand_value(rng)) for n in names]
 
 
 def rand_step(rng):
     if rng.random() < 0.5:
-        return ("s", rng.choice(RAND_NAMES), rand_value(rng))
+        return ("s", gen.extra_or(rng, RAND_NAMES), rand_value(rng))
     return ("u", [rand_dict(rng, 3) for _ in range(rng.randint(0, 3))], rand_dict(rng, 2) if rng.random() < 0.5 else [])
 
 
